@@ -521,6 +521,18 @@ def main():
                     results.append(fu.result())
                 canary_ok = canary_f.result()
             results.sort(key=lambda r: unit_names.index(r['unit']))
+            # Kani legs: always for properties whose Verus leg assumes a kernel (cfg['kani'] == 'quick'), otherwise thorough tier
+            kmode = cfg.get('kani')
+            if kmode == 'quick' or (kmode == 'thorough' and args.tier == 'thorough'):
+                import kani_leg
+                kt0 = time.time()
+                kr = kani_leg.run(unit_names, scratch, log)
+                if kr['obligations'] or kr['undecided']:
+                    results.append(dict(unit='kani', obligations=kr['obligations'], failures=kr['failures'], undecided=kr['undecided'],
+                                        metas=[], verified=len(kr['obligations']) - len(kr['failures']), errors=len(kr['failures']),
+                                        wall=time.time() - kt0, smt={}, cmd='; '.join(i['cmd'] for i in kr['info']),
+                                        trusted=['Kani 0.68 / CBMC (bit-precise, loop-free harnesses: complete for the full input domain)'],
+                                        bundle_lines=0, bundle_sha256='', failed_ids=[], smt_total_ms=None, kani_info=kr['info']))
             if not canary_ok:
                 raise Undecided('vacuity canary verified `false`: prelude axioms are inconsistent')
             extra = {}
